@@ -176,7 +176,7 @@ var c08Series = [][]float64{
 }
 
 func c08(ctx *run.Ctx) {
-	maxLen := ctx.Pick(7, 8)
+	maxLen := ctx.Pick(7, 9)
 	alphabet := []strategy.Action{strategy.Sell, strategy.Hold, strategy.Buy}
 	// Exhaustive: every action word up to maxLen over every value series.
 	for L := 0; L <= maxLen; L++ {
@@ -215,7 +215,7 @@ func c08(ctx *run.Ctx) {
 		}
 	}
 	// Random long words, positive random values, unequal lengths both ways.
-	batches := ctx.Pick(32, 400)
+	batches := ctx.Pick(32, 2000)
 	for b := 0; b < batches; b++ {
 		b := b
 		ctx.Case(fmt.Sprintf("random/%d", b), func(cc *run.Case) {
